@@ -153,12 +153,31 @@ def evalExpr (D : Dataset) (g : Graph) (c : Row n) : Expr → Option Term
   | .exists neg p => some (.bool ((evalPart D g c p).isEmpty == neg))
 end
 
-/-! ### query forms: evalSelectQuery, evalAskQuery, evalConstructQuery + _fillTemplate -/
+/-! ### query forms: evalSelectQuery, evalAskQuery, evalConstructQuery + _fillTemplate
 
-def fillPos (μ : Row n) (sol : Nat) : TPos → Option Term
-  | .var v => μ.get v
-  | .const t => some t
-  | .blank lab => some (.fresh sol lab)      -- `bnodeMap[x]`: one new node per solution and label
+  Blank nodes of a CONSTRUCT template: `_fillTemplate` keeps `bnodeMap = defaultdict(BNode)` per solution;
+  `bnodeMap[label]` calls `BNode()` the first time a label is met in that solution.  `BNode()` is modelled by a
+  supply `mint : Nat → Term` (the k-th call returns `mint k`) with the call counter threaded through the solutions
+  in the order `evalConstructQuery` consumes them.  Freshness of the supply is a hypothesis of the theorems
+  (`FreshSupply`), not built into the model. -/
+
+abbrev BMap := List (Nat × Term)
+
+def bmLookup : BMap → Nat → Option Term
+  | [], _ => none
+  | (l, t) :: rest, lab => if l = lab then some t else bmLookup rest lab
+
+/-- `bnodeMap[lab]` on a `defaultdict(BNode)`; the state is (the dict, number of `BNode()` calls so far) -/
+def bnodeGet (mint : Nat → Term) (st : BMap × Nat) (lab : Nat) : Term × (BMap × Nat) :=
+  match bmLookup st.1 lab with
+  | some t => (t, st)
+  | none => (mint st.2, (st.1 ++ [(lab, mint st.2)], st.2 + 1))
+
+/-- one position of a template triple: `bnodeMap[x] if isinstance(x, BNode) else solution.get(x)` -/
+def fillPos (mint : Nat → Term) (μ : Row n) (st : BMap × Nat) : TPos → Option Term × (BMap × Nat)
+  | .var v => (μ.get v, st)
+  | .const t => (some t, st)
+  | .blank lab => (some (bnodeGet mint st lab).1, (bnodeGet mint st lab).2)
 
 def isLiteral : Term → Bool
   | .int _ | .str _ | .bool _ => true
@@ -168,20 +187,38 @@ def isURIRef : Term → Bool
   | .iri _ => true
   | _ => false
 
-/-- `_fillTemplate` for one template triple -/
-def fillTriple (μ : Row n) (sol : Nat) (tp : TTP) : Option Triple :=
-  match fillPos μ sol tp.1, fillPos μ sol tp.2.1, fillPos μ sol tp.2.2 with
+/-- the test at the end of the loop body: all three bound, subject not a literal, predicate an IRI -/
+def legalTriple : Option Term → Option Term → Option Term → Option Triple
   | some s, some p, some o => if isLiteral s || !isURIRef p then none else some (s, p, o)
   | _, _, _ => none
 
-def fillAll (tpl : List TTP) : List (Row n) → Nat → List Triple
-  | [], _ => []
-  | μ :: rest, i => tpl.filterMap (fillTriple μ i) ++ fillAll tpl rest (i + 1)
+/-- one template triple: the three positions are instantiated (subject, predicate, object — minting happens here,
+    also for a triple that is then skipped), then the triple is tested -/
+def fillTriple (mint : Nat → Term) (μ : Row n) (st : BMap × Nat) (tp : TTP) : Option Triple × (BMap × Nat) :=
+  (legalTriple (fillPos mint μ st tp.1).1 (fillPos mint μ (fillPos mint μ st tp.1).2 tp.2.1).1
+      (fillPos mint μ (fillPos mint μ (fillPos mint μ st tp.1).2 tp.2.1).2 tp.2.2).1,
+   (fillPos mint μ (fillPos mint μ (fillPos mint μ st tp.1).2 tp.2.1).2 tp.2.2).2)
 
-def evalQuery (D : Dataset) : Query → Result n
+/-- `_fillTemplate(template, solution)` from a given dict / counter -/
+def fillTemplate (mint : Nat → Term) (μ : Row n) : List TTP → BMap × Nat → List Triple × (BMap × Nat)
+  | [], st => ([], st)
+  | tp :: rest, st =>
+    ((match (fillTriple mint μ st tp).1 with
+      | some t => t :: (fillTemplate mint μ rest (fillTriple mint μ st tp).2).1
+      | none => (fillTemplate mint μ rest (fillTriple mint μ st tp).2).1),
+     (fillTemplate mint μ rest (fillTriple mint μ st tp).2).2)
+
+/-- `for c in evalPart(ctx, query.p): graph += _fillTemplate(template, c)`: a new dict per solution, the `BNode()`
+    counter goes on -/
+def fillAll (mint : Nat → Term) (tpl : List TTP) : List (Row n) → Nat → List Triple
+  | [], _ => []
+  | μ :: rest, k =>
+    (fillTemplate mint μ tpl ([], k)).1 ++ fillAll mint tpl rest (fillTemplate mint μ tpl ([], k)).2.2
+
+def evalQuery (mint : Nat → Term) (D : Dataset) : Query → Result n
   | .select pv p => .rows pv ((evalPart D D.dflt Row.empty p).map (·.restrict pv))
   | .ask pv p => .bool (!((evalPart D D.dflt (Row.empty : Row n) p).map (·.restrict pv)).isEmpty)
   | .construct tpl pv p =>
-    .graph (fillAll tpl ((evalPart D D.dflt (Row.empty : Row n) p).map (·.restrict pv)) 0)
+    .graph (fillAll mint tpl ((evalPart D D.dflt (Row.empty : Row n) p).map (·.restrict pv)) 0)
 
 end RV.C04.Model
